@@ -21,6 +21,8 @@ structure Pend where
   tag : String
   due : Int            -- virtual time (relative to T0)
   handle : Int
+  fp : Bool            -- scheduled with a function pointer
+  giver : Option Nat   -- this_player() when it was scheduled
   deriving Repr, DecidableEq
 
 /-- what the oracle can object to -/
@@ -35,6 +37,7 @@ inductive Violation where
   | fireUnscheduled (owner fn : Nat) (tag : String) (t : Int)
   | fireEarly (owner : Nat) (tag : String) (due t : Int)
   | fireDestructedOwner (owner : Nat) (tag : String)
+  | fireWrongPlayer (owner : Nat) (tag : String) (got want : Option Nat)
   | removeHandleAnswer (owner : Nat) (tag : String) (got want : Int)
   | removeHandleNothingPending (owner : Nat) (tag : String) (got : Int)
   | findHandleAnswer (owner : Nat) (tag : String) (got want : Int)
@@ -80,6 +83,12 @@ def handleOf (s : JState) (o : Nat) (tag : String) : Int :=
 
 def isDeadJ (s : JState) (o : Nat) : Bool := s.dead.contains o
 
+/-- a saved this_player() at the time of the callback: 0 if that object has been destructed meanwhile -/
+def liveGiverJ (s : JState) (g : Option Nat) : Option Nat :=
+  match g with
+  | some x => if isDeadJ s x then none else some x
+  | none => none
+
 /-- expected answer of find/remove for entry e at time t; a dead owner's entry whose time has passed may
     already have been dropped by the sweep, so -1 is accepted as well -/
 def answerOk (s : JState) (e : Pend) (t r : Int) : Bool :=
@@ -93,22 +102,25 @@ def judgeStep (s : JState) (ev : Ev) : JState :=
     let missed := s.pend.filter (fun e => e.due ≤ t && !isDeadJ s e.owner)
     let s := missed.foldl (fun s e => s.flag (.notFired e.owner e.tag e.due t)) s
     { s with inTick := false, pend := s.pend.filter (fun e => e.due > t) }
-  | .co t o f d tag h =>
+  | .co t o f d tag h fp g =>
     if isDeadJ s o then
       if h == 0 then { s with handles := ((o, tag), 0) :: s.handles } else s.flag (.scheduledByDestructed ev)
     else if h == 0 then s.flag (.callOutRefused ev)
     else
       let s := if s.allHandles.contains h then s.flag (.handleReused ev) else s
       let due := t + (if d < 1 then 1 else d)
-      { s with pend := { owner := o, fn := f, tag := tag, due := due, handle := h } :: s.pend,
+      { s with pend := { owner := o, fn := f, tag := tag, due := due, handle := h, fp := fp, giver := g } :: s.pend,
                handles := ((o, tag), h) :: s.handles, allHandles := h :: s.allHandles }
-  | .fire t o f tag =>
+  | .fire t o f tag tp =>
     let s := if s.inTick then s else s.flag (.fireOutsideTick ev)
     match minDue (fun e => e.owner == o && e.tag == tag && e.fn == f) s.pend with
     | none => s.flag (.fireUnscheduled o f tag t)
     | some e =>
       let s := if e.due > t then s.flag (.fireEarly o tag e.due t) else s
       let s := if isDeadJ s o then s.flag (.fireDestructedOwner o tag) else s
+      -- this_player() in the callback is the saved command_giver, or 0 if that object has been destructed
+      let want := liveGiverJ s e.giver
+      let s := if tp == want then s else s.flag (.fireWrongPlayer o tag tp want)
       match removeOne (fun x => x == e) s.pend with
       | some r => { s with pend := r.2 }
       | none => s
@@ -126,17 +138,17 @@ def judgeStep (s : JState) (ev : Ev) : JState :=
     | some e => if answerOk s e t r then s else s.flag (.findHandleAnswer o tag r (e.due - t))
     | none => if r == -1 then s else s.flag (.findHandleNothingPending o tag r)
   | .rmn t o f r =>
-    let cands := s.pend.filter (fun e => e.owner == o && e.fn == f)
+    let cands := s.pend.filter (fun e => !e.fp && e.owner == o && e.fn == f)
     if cands.isEmpty then
       if r == -1 then s else s.flag (.removeNameNothingPending o f r)
     else
-      match removeOne (fun e => e.owner == o && e.fn == f && e.due - t == r) s.pend with
+      match removeOne (fun e => !e.fp && e.owner == o && e.fn == f && e.due - t == r) s.pend with
       | some x => { s with pend := x.2 }
       | none =>
         if r == -1 && cands.all (fun e => isDeadJ s e.owner && e.due ≤ t) then s
         else s.flag (.removeNameAnswer o f r (cands.map (fun e => e.due - t)))
   | .fnm t o f r =>
-    let cands := s.pend.filter (fun e => e.owner == o && e.fn == f)
+    let cands := s.pend.filter (fun e => !e.fp && e.owner == o && e.fn == f)
     if cands.isEmpty then
       if r == -1 then s else s.flag (.findNameNothingPending o f r)
     else if cands.any (fun e => answerOk s e t r) then s
@@ -146,13 +158,14 @@ def judgeStep (s : JState) (ev : Ev) : JState :=
   | .dest _ _ x =>
     if isDeadJ s x then s else { s with dead := x :: s.dead }
   | .info t rows =>
-    let want := (s.pend.filter (fun e => !isDeadJ s e.owner)).map (fun e => (e.owner, e.fn, e.due - t))
+    let want := (s.pend.filter (fun e => !isDeadJ s e.owner)).map (fun e => (e.owner, fnCode e.fp e.fn, e.due - t))
     -- multiset equality
     let missing := want.filter (fun x => want.count x > rows.count x)
     let extra := rows.filter (fun x => rows.count x > want.count x)
     if missing.isEmpty && extra.isEmpty then s
     else s.flag (.infoMismatch missing extra)
   | .err _ => s
+  | .errFpDead => s
   | .opErr _ => s
   | .opDestructed _ => s
   | .setScriptDestructed _ => s
